@@ -262,3 +262,178 @@ def discmap_spec(d):
 
 def op_ids(spec):
     return [op["operationId"] for item in spec["paths"].values() for m, op in item.items() if m != "parameters"]
+
+
+# ---- C10: unions that a recursive struct holds BY VALUE (the union itself need not be on a dependency cycle) ----
+# further edge kinds (src, kind, dst); `dst` is what the union member / the copy refers to
+#   uOne / uAny       member `u_dst`  = inline oneOf / anyOf [ $ref dst, <inline member> ]
+#   uOneReq           the same, member required
+#   uOneArr / uAnyArr member `ua_dst` = array whose ITEMS are such an inline union
+#   uMap              member `um_dst` = map whose VALUES are such an inline union
+#   uGrp              every uGrp edge of one source goes into ONE inline oneOf member `ug` (two or more $refs: the
+#                     union has a fingerprint; one $ref: an integer is added)
+#   dup / dupArr      member `d_dst` (items of `da_dst`) = a structural COPY of schema dst as it stands before the
+#                     copies are made (what bundlers / partial dereferencers emit); a named union repeated inline is
+#                     typed as the named union although no dependency edge leads to it
+KINDS_UNION = ["uOne", "uAny", "uOneReq", "uOneArr", "uAnyArr", "uMap", "uGrp", "dup", "dupArr"]
+# the inline (non-$ref) member of a union: `umix` gives one to NAMED unions, `INLINE_DEFAULT` to the inline ones
+INLINE_MEMBERS = {
+    "string": {"type": "string"},
+    "uuid": {"type": "string", "format": "uuid"},
+    "integer": {"type": "integer"},
+    "object": {"type": "object", "required": ["note"], "properties": {"note": {"type": "string"}}},
+    "loose": {"type": "object", "properties": {"note": {"type": "string"}}},
+}
+
+
+def graph_schemas_u(names, edges, umix=None, inline="string"):
+    """graph_schemas for the plain kinds, then the union kinds on top.  umix: {union schema name: key of
+    INLINE_MEMBERS} - the named union gets that inline member after its $ref members."""
+    import copy
+    out = graph_schemas(names, [e for e in edges if e[1] not in KINDS_UNION])
+    for n, key in sorted((umix or {}).items()):
+        s = out[n]
+        k = "oneOf" if "oneOf" in s else "anyOf" if "anyOf" in s else None
+        if k:
+            s[k].append(copy.deepcopy(INLINE_MEMBERS[key]))
+    member = INLINE_MEMBERS[inline]
+
+    def props(a):
+        s = out[a]
+        return s.setdefault("properties", {})
+
+    grp = {}
+    for (a, k, b) in edges:
+        ref = {"$ref": REF + b}
+        if k in ("uOne", "uOneReq"):
+            props(a)["u_" + fld(b)] = {"oneOf": [ref, copy.deepcopy(member)]}
+            if k == "uOneReq":
+                out[a].setdefault("required", []).append("u_" + fld(b))
+        elif k == "uAny":
+            props(a)["w_" + fld(b)] = {"anyOf": [ref, copy.deepcopy(member)]}
+        elif k in ("uOneArr", "uAnyArr"):
+            props(a)["ua_" + fld(b) if k == "uOneArr" else "wa_" + fld(b)] = {"type": "array", "items": {("oneOf" if k == "uOneArr" else "anyOf"): [ref, copy.deepcopy(member)]}}
+        elif k == "uMap":
+            props(a)["um_" + fld(b)] = {"type": "object", "additionalProperties": {"oneOf": [ref, copy.deepcopy(member)]}}
+        elif k == "uGrp":
+            grp.setdefault(a, [])
+            if ref not in grp[a]:
+                grp[a].append(ref)
+    for a, refs in grp.items():
+        props(a)["ug"] = {"oneOf": refs + ([{"type": "integer"}] if len(refs) < 2 else [])}
+    snapshot = copy.deepcopy(out)
+    for (a, k, b) in edges:
+        if k == "dup":
+            props(a)["d_" + fld(b)] = copy.deepcopy(snapshot[b])
+        elif k == "dupArr":
+            props(a)["da_" + fld(b)] = {"type": "array", "items": copy.deepcopy(snapshot[b])}
+    return out
+
+
+def graph_spec_u(names, edges, roots=None, umix=None, inline="string"):
+    spec = graph_spec(names, [], roots)
+    spec["components"]["schemas"] = graph_schemas_u(names, edges, umix, inline)
+    return spec
+
+
+def two_node_union_graphs():
+    """one union-kind edge out of A (to A or to B), alone or with one plain edge out of B"""
+    names = ["A", "B"]
+    for k in KINDS_UNION:
+        yield names, [("A", k, "A")]
+        yield names, [("A", k, "B")]
+        for k2 in KINDS + KINDS_UNION:
+            for t in ("A", "B"):
+                if k2 == "allOf" and t == "B":
+                    continue
+                yield names, [("A", k, "B"), ("B", k2, t)]
+
+
+# documents people write: the shapes the two-node graphs abstract from, with their own names
+UNION_TEMPLATES = [
+    # a comment thread; the reply target union is repeated inline by a bundler
+    {"names": ["Comment", "ReplyTarget"], "edges": [["ReplyTarget", "oneOf", "Comment"], ["Comment", "dup", "ReplyTarget"]], "umix": {"ReplyTarget": "uuid"}},
+    {"names": ["Comment", "ReplyTarget"], "edges": [["ReplyTarget", "anyOf", "Comment"], ["Comment", "dupArr", "ReplyTarget"], ["Comment", "dup", "ReplyTarget"]], "umix": {"ReplyTarget": "object"}},
+    # linked list / tree whose link is "the node or its id"
+    {"names": ["TreeNode"], "edges": [["TreeNode", "uOne", "TreeNode"]]},
+    {"names": ["TreeNode"], "edges": [["TreeNode", "uOneReq", "TreeNode"], ["TreeNode", "uAnyArr", "TreeNode"]]},
+    # mutual recursion that runs only through inline unions
+    {"names": ["Filter", "Negation"], "edges": [["Filter", "uAny", "Negation"], ["Negation", "uAny", "Filter"]], "inline": "integer"},
+    {"names": ["Filter", "Negation", "Conjunction"], "edges": [["Filter", "uGrp", "Negation"], ["Filter", "uGrp", "Conjunction"], ["Negation", "opt", "Filter"], ["Conjunction", "arr", "Filter"]]},
+    # expression tree: named union ON the cycle (the case the boxing rule was written for)
+    {"names": ["Expr", "Literal", "BinaryOp"], "edges": [["Expr", "oneOf", "Literal"], ["Expr", "oneOf", "BinaryOp"], ["BinaryOp", "opt", "Expr"], ["BinaryOp", "req", "Expr"]]},
+    {"names": ["Expr", "Literal", "BinaryOp"], "edges": [["Expr", "oneOf", "Literal"], ["Expr", "oneOf", "BinaryOp"], ["BinaryOp", "dup", "Expr"]]},
+]
+
+
+def json_text(v):
+    import json
+    return json.dumps(v, sort_keys=True)
+
+
+def inline_union_cycle(schemas):
+    """generation steering only (the judge has its own copy of this in the Lean driver): is there a cycle made of
+    "schema -> $ref member of a union that sits INSIDE it" steps?  With helper constructors on, the unchanged
+    generator overflows its stack on such documents (finding F10-3), so most of them are generated --no-helpers."""
+    comps = [json_text(v) for v in schemas.values()]
+
+    def refs(j, top):
+        out = []
+        if not isinstance(j, dict):
+            return out
+        if not top and json_text(j) in comps:
+            return out          # a structural copy of a component is named through the schema-identity cache
+        if not top:
+            for k in ("oneOf", "anyOf"):
+                for v in j.get(k) or []:
+                    if isinstance(v, dict) and str(v.get("$ref", "")).startswith(REF):
+                        out.append(v["$ref"][len(REF):])
+        for v in (j.get("properties") or {}).values():
+            out += refs(v, False)
+        if isinstance(j.get("items"), dict):
+            out += refs(j["items"], False)
+        return out
+    succ = {n: set(refs(s, True)) for n, s in schemas.items()}
+    def reaches(a, b, seen):
+        for w in succ.get(a, ()):
+            if w == b or (w not in seen and not seen.add(w) and reaches(w, b, seen)):
+                return True
+        return False
+    return any(reaches(n, n, set()) for n in schemas)
+
+
+# ---- C10: round trip of recursive documents through unions (declaration order = matching order) ----
+RT_KINDS = ["rec", "recArr", "recOpt", "loose", "strict", "closed"]
+
+
+def rt_member(union, name, kind):
+    """one object member of the union `union`; member names carry the member's name so that the members of one
+    union never share a member name"""
+    n = fld(name)
+    u = {"$ref": REF + union}
+    if kind == "rec":        # the specific recursive alternative: a required operator and two operands
+        return {"type": "object", "required": ["op_" + n], "properties": {"op_" + n: {"type": "string"}, "left_" + n: u, "right_" + n: u}}
+    if kind == "recArr":     # recursion through an array
+        return {"type": "object", "required": ["all_" + n], "properties": {"all_" + n: {"type": "array", "items": u}}}
+    if kind == "recOpt":     # recursive AND permissive: nothing required
+        return {"type": "object", "properties": {"next_" + n: u, "label_" + n: {"type": "string"}}}
+    if kind == "loose":      # permissive leaf: no required member, unknown members allowed
+        return {"type": "object", "properties": {"value_" + n: {"type": "number"}, "unit_" + n: {"type": "string"}}}
+    if kind == "strict":
+        return {"type": "object", "required": ["name_" + n], "properties": {"name_" + n: {"type": "string"}}}
+    if kind == "closed":
+        return {"type": "object", "properties": {"value_" + n: {"type": "number"}, "unit_" + n: {"type": "string"}}, "additionalProperties": False}
+    raise ValueError(kind)
+
+
+def rt_spec(d):
+    """d["rt"] = {"union": U, "kw": "oneOf"|"anyOf", "members": [[name, kind], ...]} (members in SPEC order)"""
+    r = d["rt"]
+    schemas = {}
+    for name, kind in r["members"]:
+        schemas[name] = rt_member(r["union"], name, kind)
+    schemas[r["union"]] = {r["kw"]: [{"$ref": REF + name} for name, _ in r["members"]]}
+    names = [r["union"]] + [m[0] for m in r["members"]]
+    spec = graph_spec(names, [], names)
+    spec["components"]["schemas"] = schemas
+    return spec
